@@ -138,6 +138,18 @@ Definition links_ok (idf : nat -> str) (b : base) (impl_mods : list xval) (m : e
   match find_first (e_name m) (map IExt impl_mods) with
   | Ok (Some (HExt xm)) =>
     json_eq (x_url xm) (match module_url idf m with Some u => JStr (spec_join b u) | None => JNull end)
+    (* path by path: every object under the module, at the path of an entity of A, has that entity's URL *)
+    && path_ok idf b None None m xm
+    (* ... and so has everything under the objects a USE imports *)
+    && forallb (fun e => if importable e
+                         then match pub_class (e_kind e) with
+                              | Some c => match used_lookup xm c (e_name e) with
+                                          | Ok (Some x) => path_ok idf b (Some (e_kind m)) (module_url idf m) e x
+                                          | _ => false
+                                          end
+                              | None => true
+                              end
+                         else true) (e_kids m)
     && forallb (fun t => match t with
                          | (c, n, u) => match used_lookup xm c n with
                                         | Ok (Some x) => json_eq (x_url x) (JStr u)
